@@ -269,6 +269,14 @@ impl G {
                 }
                 _ => Ret::Continue,
             },
+            // a socket child of the composite source asks for its own re-registration
+            KindTag::Composite => {
+                if self.rng.chance(1, 4) {
+                    Ret::Reregister
+                } else {
+                    Ret::Continue
+                }
+            }
             _ => Ret::Continue,
         }
     }
